@@ -54,3 +54,18 @@ class ArgLoader(TagLoader):
     def __init__(self, registry):
         super().__init__()
         self.registry = registry
+
+
+class StrictLoader(loaders.DefaultObjectLoader):
+    """A loader with an allow-list (what a service does that must not instantiate arbitrary classes named in a
+    checkpoint): identifiers that are not on the list are refused with ValueError, as the interface demands."""
+
+    def __init__(self, allowed=()):
+        self.allowed = set(allowed)
+        self.refused = []
+
+    def load_object(self, identifier):
+        if identifier not in self.allowed:
+            self.refused.append(identifier)
+            raise ValueError(f'identifier `{identifier}` is not allowed')
+        return super().load_object(identifier)
